@@ -563,6 +563,7 @@ func init() {
 			{Name: "object-template", Shards: func(string) int { return 4 }, Run: runTemplate, CrashIsViolation: true},
 			{Name: "package-pipeline", Shards: func(string) int { return 4 }, Run: runPackages, CrashIsViolation: true},
 			{Name: "oci-import", Shards: func(string) int { return 4 }, Run: runOCI, CrashIsViolation: true},
+			{Name: "package-deploy", Shards: func(string) int { return 8 }, Run: runDeploy, CrashIsViolation: true},
 		},
 	})
 }
